@@ -140,7 +140,28 @@ inline json project_state(const Opm::ScheduleState& st, bool maskActionEvent = f
     json o = json::object();
 #define VF_MEMBER(m) o[#m] = unordered ? pack_hash_unordered(st.m.get()) : pack_hash(st.m.get());
     VF_MEMBER(gecon) VF_MEMBER(guide_rate) VF_MEMBER(wlist_manager)
-    VF_MEMBER(udq) VF_MEMBER(udq_active)
+    VF_MEMBER(udq_active)
+    if (!maskActionEvent) o["udq"] = unordered ? pack_hash_unordered(st.udq.get()) : pack_hash(st.udq.get());
+    {
+        // UDQ configuration through its accessors (the serialised form carries the line numbers of the defining
+        // keywords, which differ between an applied action and the same keywords written into the deck)
+        const auto& udq = st.udq();
+        json jd = json::array(), ja = json::array();
+        for (const auto& d : udq.definitions()) {
+            const auto stat = d.status();
+            jd.push_back({d.keyword(), d.input_string(), static_cast<int>(stat.first), stat.second, static_cast<int>(d.var_type()),
+                          udq.has_unit(d.keyword()) ? udq.unit(d.keyword()) : std::string("-")});
+        }
+        for (const auto& a : udq.assignments()) {
+            json vals = json::array();
+            const auto set = (a.var_type() == Opm::UDQVarType::WELL_VAR) ? a.eval(st.well_order().names())
+                           : (a.var_type() == Opm::UDQVarType::GROUP_VAR) ? a.eval(st.group_order().names()) : a.eval();
+            for (const auto& x : set) vals.push_back({x.wgname(), x.defined() ? json(hexd(x.get())) : json("undef")});
+            ja.push_back({a.keyword(), a.report_step(), vals});
+        }
+        o["udq_defs"] = jd;
+        o["udq_assigns"] = ja;
+    }
     VF_MEMBER(pavg) VF_MEMBER(wtest_config) VF_MEMBER(glo) VF_MEMBER(network) VF_MEMBER(network_balance)
     VF_MEMBER(rst_config) VF_MEMBER(bhp_defaults) VF_MEMBER(source)
 #undef VF_MEMBER
@@ -202,6 +223,12 @@ inline json project_state(const Opm::ScheduleState& st, bool maskActionEvent = f
         json jw;
         jw["all"] = pack_hash(w);
         jw["conns"] = pack_hash(w.getConnections());
+        {   // (readable: cell, state, connection factor, the WPIMULT factor accumulated so far)
+            json jc = json::array();
+            for (const auto& c : w.getConnections())
+                jc.push_back({c.getI(), c.getJ(), c.getK(), Opm::Connection::State2String(c.state()), hexd(c.CF()), hexd(c.wpimult())});
+            jw["conn_list"] = jc;
+        }
         jw["prod"] = pack_hash(w.getProductionProperties());
         jw["inj"] = pack_hash(w.getInjectionProperties());
         jw["status"] = Opm::WellStatus2String(w.getStatus());
